@@ -398,6 +398,12 @@ func resolvePathToFieldDescriptors(
 		}
 		msg, fields = childMsg, childMsg.Fields()
 	}
+	for _, field := range result {
+		if field == nil {
+			// the path ended in a '.', so its final element is empty
+			return nil, fmt.Errorf("%w in field path %q: empty path element", errUnknownField, path)
+		}
+	}
 	return result, nil
 }
 
